@@ -29,12 +29,14 @@ var All = map[string]func(*Ctx){
 		c.lockEnforced("C04.lock-enforced")
 		c.hasherPassThrough()
 		c.successResets("C04.success-resets")
+		c.afterHandlersUnconditional("C04.after-unconditional")
 		c.utcInstants("C04.utc")
 	}),
 	"C05": seq(C05, func(c *Ctx) {
 		c.moduleCopied("C05.instance")
 		c.secretEntropy("C05.entropy")
 		c.utcInstants("C05.utc")
+		c.supersededOnEveryRequest("C05.supersede-always")
 	}),
 	"C06": seq(C06, func(c *Ctx) { c.ctxUserFirst("C06.subject") }, withExplanation(C07)),
 	"C07": seq(C07, func(c *Ctx) {
@@ -44,6 +46,8 @@ var All = map[string]func(*Ctx){
 		c.rememberOnlyOnTrue("C07.on-request")
 		c.oauthRememberLiteral("C07.on-request")
 		c.secretEntropy("C07.entropy")
+		c.halfAuthUpgradeGated("C07.halfauth-upgrade")
+		c.afterHandlersUnconditional("C07.after-unconditional")
 	}),
 	"C08": seq(C08, func(c *Ctx) {
 		c.mwOutermost("C08.outermost")
@@ -54,6 +58,8 @@ var All = map[string]func(*Ctx){
 	"C09": seq(C09, (*Ctx).flushDiscipline, func(c *Ctx) {
 		c.flushUnmodified("C09.queue")
 		c.noStateAfterWrite("C09.before-write")
+		c.afterHandlersUnconditional("C09.after-unconditional")
+		c.delAllQueued("C09.delall-queued")
 	}),
 	"C10": seq(C10, func(c *Ctx) { c.delAllQueued("C10.delall-queued") }),
 	"C11": seq(C11, func(c *Ctx) {
@@ -75,7 +81,10 @@ var All = map[string]func(*Ctx){
 		c.providerUIDVerbatim("C14.details-uid")
 		c.secretEntropy("C14.entropy")
 	}),
-	"C15": seq(C15, func(c *Ctx) { c.oauthParamsReset("C15.params-reset") }),
+	"C15": seq(C15, func(c *Ctx) {
+		c.oauthParamsReset("C15.params-reset")
+		c.followRedirSites("C15.follow-sites")
+	}),
 	"C16": seq(C16, func(c *Ctx) {
 		c.verdictNotAnError("C16.verdict")
 		c.ctxUserFirst("C16.subject")
